@@ -368,3 +368,22 @@ func sortedKeys(m map[string]string) []string {
 	sort.Strings(ks)
 	return ks
 }
+
+// runBatchSolver runs one incremental session; perCheck is the soft timeout of each check-sat.
+func runBatchSolver(sp solverSpec, query string, file string, perCheck, total time.Duration, ctx context.Context) SolverResult {
+	fn := file + "." + sp.name + ".smt2"
+	if err := os.WriteFile(fn, []byte(query), 0o644); err != nil {
+		return SolverResult{Status: "error", Solver: sp.name, Output: err.Error()}
+	}
+	defer os.Remove(fn)
+	args := sp.args(int(perCheck/time.Millisecond), fn)
+	cctx, cancel := context.WithTimeout(ctx, total)
+	defer cancel()
+	cmd := exec.CommandContext(cctx, args[0], args[1:]...)
+	var out bytes.Buffer
+	cmd.Stdout = &out
+	cmd.Stderr = &out
+	t0 := time.Now()
+	_ = cmd.Run()
+	return SolverResult{Status: "batch", Solver: sp.name, Seconds: time.Since(t0).Seconds(), Output: out.String()}
+}
